@@ -22,6 +22,7 @@
 import numpy as np
 from grid.basegrid import Grid
 import itertools
+import math
 from itertools import islice
 
 
@@ -111,7 +112,8 @@ class MultiDomainGrid(Grid):
         if len(self.grid_list) == 1 and self.num_domains is not None:
             return self.grid_list[0].size ** self.num_domains
         else:
-            return np.prod([grid.size for grid in self.grid_list])
+            # exact Python-integer product: np.prod works in int64 and wraps around silently from 2**63
+            return math.prod(int(grid.size) for grid in self.grid_list)
 
     @property
     def weights(self):
